@@ -1,0 +1,42 @@
+//go:build verif
+
+package httpgrpc
+
+// Re-exports of unexported helpers for the external verification harness.
+// Compiled only with `-tags verif`; adds no behaviour.
+
+import (
+	"net/http"
+
+	"google.golang.org/grpc/metadata"
+
+	"github.com/fullstorydev/grpchan/internal"
+)
+
+var (
+	VerifHttpStatusFromCode = httpStatusFromCode
+	VerifCodeFromHttpStatus = codeFromHttpStatus
+	VerifToHeaders          = toHeaders
+	VerifAsMetadata         = asMetadata
+	VerifContextFromHeaders = contextFromHeaders
+	VerifHeadersFromContext = headersFromContext
+	VerifReadSizePreface    = readSizePreface
+	VerifReadProtoMessage   = readProtoMessage
+	VerifWriteProtoMessage  = writeProtoMessage
+	VerifStatFromResponse   = statFromResponse
+	VerifGetUnaryCodec      = getUnaryCodec
+	VerifGetStreamingCodec  = getStreamingCodec
+	VerifGetPeer            = getPeer
+	VerifPeerFromRequest    = peerFromRequest
+	VerifAsTrailerProto     = asTrailerProto
+	VerifMetadataFromProto  = metadataFromProto
+)
+
+// VerifSetMetadata runs setMetadata against call options made of the given
+// header and trailer targets.
+func VerifSetMetadata(h http.Header, hdrs, tlrs []*metadata.MD) error {
+	return setMetadata(h, &internal.CallOptions{Headers: hdrs, Trailers: tlrs})
+}
+
+// VerifMaxMessageSize is the per-message size limit.
+const VerifMaxMessageSize = maxMessageSize
